@@ -27,6 +27,34 @@ pub fn nth_string(mut i: u64) -> String {
     s
 }
 
+/// code points at the edges of the UTF-8 encoding lengths and of the surrogate gap
+pub const BOUNDARY: [char; 12] = [
+    '\u{7f}', '\u{80}', '\u{7ff}', '\u{800}', '\u{e01}', '\u{fff}', '\u{1000}', '\u{d7ff}', '\u{e000}', '\u{ffff}', '\u{10000}',
+    '\u{10ffff}',
+];
+
+/// the `i`-th string over the boundary code points in length-then-lexicographic order
+pub fn nth_boundary_string(mut i: u64) -> String {
+    let k = BOUNDARY.len() as u64;
+    let mut len = 0u32;
+    let mut block = 1u64;
+    while i >= block {
+        i -= block;
+        len += 1;
+        block *= k;
+    }
+    let mut digits = Vec::new();
+    for _ in 0..len {
+        digits.push((i % k) as usize);
+        i /= k;
+    }
+    digits.iter().rev().map(|d| BOUNDARY[*d]).collect()
+}
+
+pub fn boundary_count_upto(chars: u32) -> u64 {
+    (0..=chars).map(|k| (BOUNDARY.len() as u64).pow(k)).sum()
+}
+
 pub fn count_upto(chars: u32) -> u64 {
     (0..=chars).map(|k| 4u64.pow(k)).sum()
 }
@@ -119,7 +147,14 @@ pub fn string_sweep(subject: &str, full: bool) -> Program {
     }
     b.op(Expr::invoke(s(), "char_byte_index", vec![Expr::str("a")]));
     // find / replace / split / starts / ends over all needles of <= 2 characters
-    let nd = needles();
+    let mut nd = needles();
+    // the subject's own characters as needles (matters for subjects outside the base alphabet)
+    for ch in subject.chars() {
+        let t = ch.to_string();
+        if !nd.contains(&t) {
+            nd.push(t);
+        }
+    }
     for needle in &nd {
         let ne = || Expr::str(needle);
         for st in lo..=hi {
@@ -210,10 +245,50 @@ pub fn conversions(data: &[u8]) -> (Program, Vec<&'static str>) {
     let ops = 8 + rd.below(24);
     for _ in 0..ops {
         match rd.below(8) {
-            0 | 1 => {
+            0 => {
                 let t = rd.pick_str(NUM_TEXTS);
                 b.op(Expr::invoke(Expr::str(t), "to_num", vec![]));
                 labels.push("to_num");
+            }
+            1 => {
+                // generated decimal texts: 1-40 digits (beyond the 15-17 that fit a double exactly),
+                // optional sign, fraction, exponent, leading zeros; sometimes with one stray character
+                let mut t = String::new();
+                match rd.below(6) {
+                    0 => t.push('-'),
+                    1 => t.push('+'),
+                    _ => {}
+                }
+                let wide = rd.flag();
+                let nd = 1 + rd.below(if wide { 40 } else { 20 });
+                for k in 0..nd {
+                    let dgt = if k == 0 && rd.chance(1, 4) { 0 } else { rd.below(10) };
+                    t.push((b'0' + dgt as u8) as char);
+                }
+                if rd.chance(1, 3) {
+                    t.push('.');
+                    let nf = rd.below(20);
+                    for _ in 0..nf {
+                        t.push((b'0' + rd.below(10) as u8) as char);
+                    }
+                }
+                if rd.chance(1, 4) {
+                    t.push(if rd.flag() { 'e' } else { 'E' });
+                    match rd.below(3) {
+                        0 => t.push('-'),
+                        1 => t.push('+'),
+                        _ => {}
+                    }
+                    t.push_str(&rd.below(400).to_string());
+                }
+                if rd.chance(1, 10) {
+                    let at = rd.below(t.len() + 1);
+                    t.insert(at, *rd.pick(&[' ', '_', 'x', ',', '-', '.']));
+                }
+                // the value itself and its comparison with the same text written as a literal (when it
+                // is one): to_num and the compiler must agree on the nearest double
+                b.op(Expr::invoke(Expr::str(&t), "to_num", vec![]));
+                labels.push("to_num_generated");
             }
             2 | 3 => {
                 // byte vectors: valid characters, truncated and overlong sequences, surrogates, junk
@@ -298,7 +373,7 @@ pub fn conversions(data: &[u8]) -> (Program, Vec<&'static str>) {
 pub fn random_ops(data: &[u8]) -> (Program, Vec<&'static str>) {
     let mut rd = Rd::new(data, 1000);
     let mut b = B { out: Vec::new(), counter: 0 };
-    let pool = ["a", "b", "ab", "é", "€", "😀", " ", ",", "aé", "€a", "abc", "ba"];
+    let pool = ["a", "b", "ab", "é", "€", "😀", " ", ",", "aé", "€a", "abc", "ba", "ก", "\u{800}", "\u{7ff}", "\u{ffff}\u{10000}"];
     let k = 1 + rd.below(12);
     let mut subject = String::new();
     for _ in 0..k {
